@@ -106,7 +106,7 @@ def suite_ok(patch):
         subprocess.call(['git', '-C', '/repo', 'worktree', 'remove', '--force', wt], stdout=subprocess.DEVNULL, stderr=subprocess.DEVNULL)
         shutil.rmtree(wt, ignore_errors=True)
 
-def run(prefixes, allchecks):
+def run(prefixes, allchecks, only=None):
     exp = json.load(open(os.path.join(OUT, 'expected.json')))
     allprops = ['C%02d' % i for i in range(1, 21)]
     for name in sorted(exp):
@@ -114,7 +114,7 @@ def run(prefixes, allchecks):
         patch = os.path.join(OUT, name + '.diff')
         if not os.path.exists(patch): continue
         tests = suite_ok(patch)
-        props = allprops if (allchecks or name.startswith('B-')) else exp[name]
+        props = only if only else (allprops if (allchecks or name.startswith('B-')) else exp[name])
         r = subprocess.run([os.path.join(V, 'tools', 'mutant.py'), '--persist', patch] + props, stdout=subprocess.PIPE, stderr=subprocess.STDOUT, text=True)
         out = [l.strip() for l in r.stdout.splitlines() if l.startswith('C') or 'VIOLATION' in l]
         verdicts = {l.split()[0]: l.split()[1] for l in out if l[0] == 'C' and len(l.split()) > 1}
@@ -124,4 +124,8 @@ def run(prefixes, allchecks):
 
 if __name__ == '__main__':
     if sys.argv[1] == 'gen': gen()
-    else: run([a for a in sys.argv[2:] if not a.startswith('--')], '--all-checks' in sys.argv)
+    else:
+        only = None
+        for a in sys.argv[2:]:
+            if a.startswith('--props='): only = a[8:].split(',')
+        run([a for a in sys.argv[2:] if not a.startswith('--')], '--all-checks' in sys.argv, only)
